@@ -348,6 +348,14 @@ def unit_shadow_and_use(how, what):
                      eps=[{"id": "tag:h1", "kind": "body_tag", "n": 2}], sid=f"U/shadow_and_use/{how}/fn", key=f"shadow_and_use|{how}|fn")
 
 
+def unit_drop_helper(depth):
+    """the helper chain below K is cut: K stops calling h1 and h1 (with what it calls) is deleted from the module"""
+    extra, call = _chain(depth, [])
+    eps = [{"id": "drop:h1", "kind": "drop_fn", "n": 2}] + ([{"id": "drop:h2", "kind": "drop_fn", "n": 2}] if depth >= 2 else [])
+    sp = _scaffold([call], extra_funcs=extra, eps=eps, sid=f"U/drop_helper/{depth}", key=f"drop_helper|depth={depth}")
+    return sp
+
+
 def unit_class_attr():
     """a class-level attribute initialised from a tracked module variable, read through self in a method"""
     var = {"name": "V0", "module": "main", "values": ["1", "2"]}
@@ -442,6 +450,7 @@ def unit_programs(level="quick"):
     out.append(unit_default_twice())
     out += [unit_same_path_twice(k) for k in ("lit", "same", "rt")]
     out += [unit_shadow(h) for h in SHADOWS]
+    out += [unit_drop_helper(1), unit_drop_helper(2)]
     out += [unit_shadow(h) for h in ("lambda_assigned", "nested_def_param")]
     out += [unit_shadow_and_use(h, w) for h in ("lambda_assigned", "nested_def_param", "listcomp") for w in ("var", "fn")]
     out += [unit_class_attr(), unit_local_import(), unit_inherited()]
